@@ -1967,6 +1967,7 @@ class Processor:
                 yield NodeCoords(
                     data, parent, parentref, translated_path, ancestry,
                     peekseg)
+                break  # yield this node once, however many children match
 
             # Then, recurse into each child to perform the same test.
             if isinstance(data, dict):
